@@ -1315,6 +1315,16 @@ def set_method(it, s, name, args, kwargs, line=None):
         return None
     if name == 'copy':
         return VSet(list(s.elems)) if not s.symbolic else VSet(arr=s.arr)
+    if name == 'issuperset' and concrete_items(it, args[0]) is None:
+        other = args[0]
+        if isinstance(other, VSet):
+            k_ = z3.Const('q.ss.2', z3.StringSort())
+            return mkbool(z3.ForAll([k_], z3.Implies(other.to_arr()[k_], s.to_arr()[k_])))
+        seq = other.seq if isinstance(other, (VList, VSeqIter)) and getattr(other, 'seq', None) is not None else it.seq_term(other, line)
+        typed = seq.sort() != pv.PVSeq
+        qi = z3.Const('q.ss.2', z3.IntSort())
+        key_ = (lambda t: t) if typed else pv.kenc_t
+        return mkbool(z3.ForAll([qi], z3.Implies(z3.And(qi >= 0, qi < z3.Length(seq)), s.to_arr()[key_(seq[qi])])))
     if name == 'issuperset':
         other = args[0]
         items = concrete_items(it, other)
@@ -1770,7 +1780,12 @@ def b_sorted(it, args, kwargs):
         return symbolic_sort(it, [(x, x) for x in items])
     if isinstance(v, (VKeys, VDict)) or (isinstance(v, VSet) and v.symbolic):
         if key is not None or kwargs.get('reverse'):
-            raise Unsupported('sorted(key=) over the keys of a symbolic mapping')
+            # sorted(d, key=...): some permutation of exactly the keys (which one is not modelled: obligations proved
+            # about a loop over it cannot depend on the visiting order)
+            it.ctx.note('sorted(key=) over the keys of a symbolic mapping is modelled as some permutation of the keys '
+                        '(assumption A-sorted)')
+            arr = v.to_arr() if isinstance(v, (VDict, VSet)) else v.arr
+            return VList(seq=pv.members_facts(it.ctx, arr, isinstance(v, VSet)))
         return sorted_members(it, v)
     seq = it.seq_term(v)
     it.ctx.note('sorted() over a sequence of symbolic length is modelled as the sequence itself (some permutation): '
